@@ -41,6 +41,10 @@ type Template struct {
 	// TrimBlocks/LStripBlocks are applied to the tokens once
 	optionsApplied sync.Once
 
+	// how many templates deep this one was loaded: 0 by the caller, n+1 by an
+	// include / extends / import / ssi of a template loaded at depth n
+	nesting int
+
 	// first come, first serve (it's important to not override existing entries in here)
 	level          int
 	parent         *Template
@@ -61,6 +65,10 @@ func newTemplateString(set *TemplateSet, tpl []byte) (*Template, error) {
 }
 
 func newTemplate(set *TemplateSet, name string, isTplString bool, tpl []byte) (*Template, error) {
+	return newNestedTemplate(set, name, isTplString, tpl, 0)
+}
+
+func newNestedTemplate(set *TemplateSet, name string, isTplString bool, tpl []byte, nesting int) (*Template, error) {
 	strTpl := string(tpl)
 
 	// Create the template
@@ -73,6 +81,7 @@ func newTemplate(set *TemplateSet, name string, isTplString bool, tpl []byte) (*
 		blocks:         make(map[string]*NodeWrapper),
 		exportedMacros: make(map[string]*tagMacroNode),
 		Options:        newOptions(),
+		nesting:        nesting,
 	}
 	// Copy all settings from another Options.
 	t.Options.Update(set.Options)
